@@ -284,7 +284,12 @@ func (s *SessionStore) Remove(ctx context.Context, session *Session) {
 	s.mutex.Lock()
 	defer s.mutex.Unlock()
 
-	delete(s.sessions, s.GlobalSessionID(session.ID))
+	id := s.GlobalSessionID(session.ID)
+	if registered, ok := s.sessions[id]; !ok || registered != session {
+		return
+	}
+
+	delete(s.sessions, id)
 	session.Close()
 
 	s.ids.Reuse(session.ID)
